@@ -1,6 +1,7 @@
 (* C17 — declarative specifications and boolean checkers.
    is_local_maximum: the labelled pixels not exceeded by any same-label pixel under the footprint.
-   regional_maximum (ties allowed): every structure neighbour inside image and mask, none larger.
+   regional_maximum (ties allowed): the pixel itself inside the mask, every structure neighbour
+   inside image and mask, none larger.
    regional_maximum (ties not allowed): exactly one pixel of every 8-connected component of the
    ties-allowed set; checked with an untrusted certificate (labels, BFS depths, roots, selected
    pixel per label) whose verification is proved sound in Proofs/LocalMaxPlateau.v. *)
@@ -55,6 +56,7 @@ Definition reg_max_at (image : list (list Z)) (mask : option (list (list bool)))
   let W := zlen (hd [] image) in
   let SH := zlen st in
   let SW := zlen (hd [] st) in
+  mask_at mask y x = true /\
   forall i j, 0 <= i < SH -> 0 <= j < SW -> ~ (i = SH / 2 /\ j = SW / 2) -> get2 false st i j = true ->
     let y' := y + (i - SH / 2) in
     let x' := x + (j - SW / 2) in
@@ -72,6 +74,7 @@ Definition reg_max_b (image : list (list Z)) (mask : option (list (list bool))) 
   let sw := length (hd [] st) in
   let h0 := Z.of_nat sh / 2 in
   let h1 := Z.of_nat sw / 2 in
+  mask_at mask y x &&
   forallb (fun i => forallb (fun j =>
       implb (negb ((i =? h0) && (j =? h1)) && get2 false st i j)
             (nb_ok image mask y x (i - h0) (j - h1))) (zrange sw)) (zrange sh).
